@@ -213,6 +213,9 @@ class ProgressivelyTerminalDecider(BaseDecider):
             # the depth heuristic leaves no candidate (e.g. every alternative is already at the maximum depth):
             # decide by the production weights alone instead of always returning the first alternative
             weights = [production_weights.get(alt, 1.0) if productive(alt) else 0 for alt in alternatives]
+        if not any(weights):
+            # nothing that can reach a terminal has a positive weight: there is no admissible choice
+            raise SynthesisException(f"No alternative of {ty} with a positive weight can reach a terminal.")
         return self.random.choice_weighted(alternatives, weights)
 
 
